@@ -1094,6 +1094,61 @@ def run(only=None):
         s.done()
         rep.log(f"other_serialisation_paths: {n_cases} cases, {len(s.viol)} violation signatures, {s.wall}s")
 
+    # ---- 8: PDUs whose content is stamped when they are serialised, under a clock that ticks on every reading ----
+    if want("time_stamped_pdus_under_a_ticking_clock"):
+        s = rep.sub("time_stamped_pdus_under_a_ticking_clock",
+                    "location reports without position (the library stamps 'no fix' with the current date when it serialises) bare, in HRNP and in "
+                    "HSTRP, serialised while every reading of date / datetime / time advances the clock by 1 day + 1 h + 1 min + 1 s, from 6 start "
+                    "instants incl. just before midnight / month / year ends: the serialised packet parses back with checksum_correct true and "
+                    "the harness's ones-complement / HDAP checksums verify (a check value computed in one pass and content emitted in another differ here)")
+        from okdmr.dmrlib.hytera.pdu.hstrp import HSTRP as _HSTRP, HSTRPPacketType as _PT, HSTRPOptions as _OPT
+        from okdmr.dmrlib.hytera.pdu.hdap import HDAP as _HDAP
+        env.import_all_okdmr()
+        starts = [1_700_000_000.0, 1_703_980_799.0, 1_704_067_199.0, 1_709_251_199.0, 951_782_399.0, 4_102_444_799.0 - 86_400 * 400]
+        for t0 in starts:
+            for wrap in ("bare", "hrnp", "hstrp"):
+                case = {"start_instant": t0, "wrapped_in": wrap}
+                seams = env.Seams(clock=t0, tick=86_400 + 3_600 + 60 + 1)
+                seams.install()
+                try:
+                    lp = LocationProtocol(opcode=LocationProtocolSpecificService.StandardReport, request_id=7, radio_ip=RadioIP(radio_id=1001, subnet=10),
+                                          result=0)
+                    if wrap == "bare":
+                        b = lp.as_bytes()
+                        inner = b
+                    elif wrap == "hrnp":
+                        h_ = HRNP(opcode=HRNPOpcodes.DATA, data=lp, source=0x20, destination=0x10, block_number=0, packet_number=1, version=4)
+                        b = h_.as_bytes()
+                        back = HRNP.from_bytes(b)
+                        if back.checksum_correct is not True:
+                            s.violation("hrnp_serialised_under_a_ticking_clock_reports_checksum_failed", {**case, "bytes": b.hex()},
+                                        "an HRNP packet serialised by the library parses back with checksum_correct False when the clock moves during serialisation")
+                        if int.from_bytes(b[10:12], "big") != ones_complement_checksum(b):
+                            s.violation("hrnp_checksum_field_does_not_cover_the_emitted_bytes", {**case, "bytes": b.hex()})
+                        if int.from_bytes(b[8:10], "big") != len(b):
+                            s.violation("hrnp_length_field_differs_from_emitted_length", {**case, "bytes": b.hex()})
+                        inner = b[12:]
+                    else:
+                        st = _HSTRP(pkt_type=_PT(have_options=False), sn=1, options=_OPT(), payload=lp, version=0)
+                        b = st.as_bytes()
+                        inner = b[6:]
+                    # inner HDAP frame: service | opcode(2) | length(2) | payload | checksum | 0x03
+                    plen = int.from_bytes(inner[3:5], "big")
+                    if len(inner) != 7 + plen or inner[-1] != 0x03:
+                        s.violation("hdap_length_field_differs_from_emitted_payload", {**case, "bytes": b.hex()})
+                    else:
+                        sm = sum(inner[1:5 + plen]) & 0xFF
+                        if inner[5 + plen] != ((~sm + 0x33) & 0xFF):
+                            s.violation("hdap_checksum_does_not_cover_the_emitted_payload", {**case, "bytes": b.hex()})
+                    if _HDAP.from_bytes(inner).as_bytes()[:16] != inner[:16]:
+                        s.violation("hdap_reparse_differs", case)
+                except Exception as e:  # noqa: BLE001
+                    s.violation("exception_time_stamped_pdu:" + exc_sig(e), case, repr(e))
+                finally:
+                    seams.uninstall()
+                s.case(nontrivial=True, calls=3, outcome=wrap, sample=case if len(s.samples) < 1 else None)
+        s.done()
+
     rep.bounds = {
         "fec_words": "all 2^20 slot-type and all 2^16 EMB words",
         "encoded": "C03 field spaces of the 14 protected kinds (+ slot type 208, EMB 128, HRNP 911 + all 2^16 packet numbers)",
